@@ -33,6 +33,8 @@ BAD_QUERIES = [
     ('sum by (app) (topk(9223372036854775807, count_over_time({job="x"}[5s])))', False), ('topk(99999999999999999999, rate({a="b"}[1m]))', True), ('{a="b"} | drop', True), ('', True), ('{', True), ('{}', False),
     ('{a="b"} | unwrap x', True), ('sum by (', True), ('sum(1', True), ('topk(5', True), ('count by (a) (2', True), ('vector(1) + max(3', True), ('bottomk(10 # c', True),
     ('sum(', True), ('topk(5,', True), ('quantile_over_time(0.5', True), ('quantile_over_time(0.5,', True), ('label_replace(', True), ('{a="b"} | json x=', True), ('{a="b"} | drop a,', True), ('1 +', True), ('vector(', True), ('{a="b"}[1m]', True), ('count_over_time({a="b"}[0s])', False),
+    ('{a="b"} | logfmt | keep ip # only the client address', False), ('rate # c', True), ('{a="b"} | drop count # x', False), ('sum # trailing', True), ('{a="b"} | keep max #', False),
+    ('vector(7) % 0.25', False), ('count_over_time({job="x"}[1m]) % 0.5', False), ('vector(7) % vector(0.5)', False), ('count_over_time({job="x"}[1m]) % -0.1', False), ('0.5 % count_over_time({job="x"}[1m])', False),
     ('count_over_time({a="b"}[1y])', True), ('{a="b"} | x > 1e999', False), ('{a="b"} | x > 5XB', True), ('"unterminated', True), ('{a="b"} # only a comment', False),
 ]
 
@@ -47,7 +49,7 @@ class P:
             "truncated / wrongly typed JSON, malformed logfmt, address-like fragments ('e.g. ', 'a.db:'), escape-sequence fragments, 5 kB lines, extreme numbers, durations and byte "
             "sizes in labels; instant and positive-step range evaluation -- expectation: a result (bad lines degrade to __error__, never crash); (2) a list of user mistakes (bad regex, "
             "template, pattern, JSON path, ip(), unsupported constructs, static-rule violations) -- expectation: an error; (3) single-token mutations of valid queries -- expectation: "
-            "result or error; (4) arbitrary byte strings as queries, nesting up to 3000 levels -- expectation: result or error. Every evaluation runs under recover() and a 6 s watchdog; "
+            "result or error (incl. the rest of the query commented out up to the end of the text); (4) arbitrary byte strings as queries, nesting up to 3000 levels, and five texts nested 20 000 to 3 000 000 levels deep (parentheses, one operator chained, nested aggregations; thorough: also label-filter parentheses and and-chains) -- expectation: result or error. Every evaluation runs under recover() and a 6 s watchdog; "
             "a panic, a hang or a dead process is a violation.")
     trusted = ["panics are observed through recover() in the harness, hangs through a watchdog; a fatal runtime error (stack exhaustion, out of memory) shows as a dead harness process",
                "the models whose totality the theorems are about are tied to the code by the correspondence runs of C01, C05-C12"]
@@ -72,6 +74,17 @@ class P:
         for st in SWEEP_STAGES:
             cases.append(self.mk(rng, g, [('{job="x"} ' + st).encode()], allrecs, "stage-sweep", expect_result=True))
             cases.append(self.mk(rng, g, [('sum by (app) (count_over_time({job="x"} %s [5s]))' % st).encode()], allrecs, "stage-sweep", expect_result=True))
+        # nesting far beyond what any stack holds (parentheses, a chain of one operator, nested aggregations): an error, not a dead process;
+        # and nesting the parser accepts must also survive everything behind the parser
+        deep = [b"(" * 3000000 + b"1" + b")" * 3000000, b"vector(1)" + b"+1" * 3000000, b"sum(" * 1500000 + b"vector(1)" + b")" * 1500000,
+                b"(" * 20000 + b"vector(1)" + b")" * 20000, b"vector(1)" + b"+1" * 20000]
+        if tier != "quick":
+            deep += [b'{a="b"} | ' + b"(" * 5000000 + b'a="1"' + b")" * 5000000, b'{a="b"} | a="1"' + b' and a="1"' * 3000000]
+        for q in deep:
+            c = self.mk(rng, g, [q], self.hostile_records(rng, g, 2), "deep")
+            c["evals"] = c["evals"][:1]
+            c["timeout_ms"] = 120000
+            cases.append(c)
         for i in range(n):
             k = i % 6
             recs = self.hostile_records(rng, g, rng.randint(1, 10))
@@ -91,7 +104,7 @@ class P:
                     vop = rng.choice(list(mgen.VOP))
                     e = m.mvec(vop, e, rng.choice([1, 3, 100]) if vop in ("topk", "bottomk") else None, rng.choice([None, mgen.grouping(["app"]), mgen.grouping([], True)]))
                 if rng.random() < 0.4:
-                    e = m.mbin(rng.choice(list(mgen.BOP)), e, rng.choice([m.mlit(0), m.mlit(2), m.mvector(0), e]))
+                    e = m.mbin(rng.choice(list(mgen.BOP) + ["%"]), e, rng.choice([m.mlit(0), m.mlit(2), m.mvector(0), e, m.mlit(0.25), m.mvector(0.5), m.mlit(-0.5)]))
                 cases.append(self.mk(rng, g, [m.text(e).encode()], recs, "metric-valid"))
             elif k == 3:
                 # any grammar-derived query (whole grammar), no expectation beyond result-or-error
@@ -103,9 +116,12 @@ class P:
                 toks = qgen.Renderer(rng).expr(ast)
                 if len(toks) > 2:
                     j = rng.randrange(len(toks))
-                    mode = rng.choice(["del", "dup", "swap", "repl", "trunc", "trunc"])
+                    mode = rng.choice(["del", "dup", "swap", "repl", "trunc", "trunc", "comment"])
                     if mode == "trunc":
                         del toks[max(1, j):]          # the query cut off after any token
+                    elif mode == "comment":
+                        del toks[max(1, j):]          # ... the rest commented out, the comment running to the end of the text
+                        toks.append(rng.choice(["# rest", "#", "# ) ] }"]))
                     elif mode == "del":
                         del toks[j]
                     elif mode == "dup":
@@ -155,7 +171,7 @@ class P:
         return {"kind": kind, "recs": recs, "evals": evals, "expect_error": expect_error, "expect_result": expect_result}
 
     def request(self, c):
-        return {"cmd": "evalmulti", "records": c["recs"], "evals": c["evals"], "timeout_ms": 6000}
+        return {"cmd": "evalmulti", "records": c["recs"], "evals": c["evals"], "timeout_ms": c.get("timeout_ms", 6000)}
 
     def to_coq(self, c, r):
         oc = r.get("outcome")
